@@ -65,6 +65,10 @@ type sortIndexState struct {
 	exhaustedSegKey    utils.Option[string]
 	numRecordsSent     uint64
 	didEarlyExit       bool
+
+	// When set, this searcher is limited to these segments (the ones without a sort index); the other subsearcher
+	// handles the rest.
+	normalSearchSegKeys map[string]struct{}
 }
 
 type segInfo struct {
@@ -198,6 +202,10 @@ func getSubsearchIfNeeded(searcher *Searcher) (*subsearch, error) {
 	subsearchers[1].qsrs = otherQSRs
 	subsearchers[1].initUnprocessedQSRs()
 	subsearchers[1].sortIndexState.forceNormalSearch = true
+	subsearchers[1].sortIndexState.normalSearchSegKeys = make(map[string]struct{}, len(otherQSRs))
+	for _, qsr := range otherQSRs {
+		subsearchers[1].sortIndexState.normalSearchSegKeys[qsr.GetSegKey()] = struct{}{}
+	}
 	subsearchers[1].segEncToKeyBaseValue += uint32(len(sortIndexQSRs))
 
 	streams := make([]*CachedStream, 0, len(subsearchers))
@@ -1010,6 +1018,18 @@ func (s *Searcher) initializeQSRs() error {
 	if err != nil {
 		log.Errorf("qid=%v, searcher.initializeQSRs: failed to get sorted QSRs: %v", s.qid, err)
 		return err
+	}
+
+	if s.sortIndexState.normalSearchSegKeys != nil {
+		// The first Fetch() reloads the QSRs; keep only the segments assigned to this subsearcher, otherwise the
+		// segments served from their sort index are searched (and returned) a second time.
+		assigned := make([]*query.QuerySegmentRequest, 0, len(qsrs))
+		for _, qsr := range qsrs {
+			if _, ok := s.sortIndexState.normalSearchSegKeys[qsr.GetSegKey()]; ok {
+				assigned = append(assigned, qsr)
+			}
+		}
+		qsrs = assigned
 	}
 
 	s.qsrs = qsrs
